@@ -432,7 +432,7 @@ class CoreData:
                 skey = key.evolve(subproject=subproject)
                 self.optstore.add_compiler_option(lang, skey, self.optstore.get_value_object(key))
 
-        for key in comp.base_options:
+        for key in sorted(comp.base_options):
             if subproject:
                 skey = key.evolve(subproject=subproject)
             else:
